@@ -427,8 +427,10 @@ _bounded('C12', 'c12_bounded',
          'messages; and the default skip-mode outputs contain submitted, started, every required output of the '
          'success branch and exactly one of succeeded / failed.',
          'The classification runs the restricted evaluator on expression strings (no token-tree model was built). '
-         'WorkflowConfig._check_completion_expression (consistency of a user expression with the graph) is NOT '
-         'covered.')
+         'Second result (contracts/c12_validation_bounded.py): the real '
+         'WorkflowConfig._check_completion_expression accepts a user expression exactly when it is consistent '
+         'with the graph per the documented table, for all 243 required / optional / unmentioned declarations of '
+         '5 outputs x 66 expressions of <= 2 leaves (quick).')
 _bounded('C17', 'c17_bounded',
          'For 44 recurrence templates (all documented formats, truncated and relative points, exclusion points and '
          'exclusion sequences) x 2 context windows (one across the end of February) x 4 calendar modes x 3 time '
